@@ -18,7 +18,7 @@ PID = "C15"
 LEVEL = "exploration"
 RULE = ("carrier-mode models built with onnx.helper (opset 18..25 round-robin; every feature stratum - foldable constants, "
         "cast-cast / neg-neg / transpose-transpose patterns, Identity, used+unused+overloaded model-local functions with "
-        "attribute defaults and reference attributes, dead code, If with a subgraph initializer, sparse initializer, unused "
+        "attribute defaults and reference attributes, functions supplied aside for replace_functions (every other such model keeps an operation of the functions' domain WITHOUT an expansion inside an If body), dead code, If with a subgraph initializer, sparse initializer, unused "
         "custom opset imports - forced round-robin) carrying doc_string / metadata_props on every carrier legal for the "
         "model's ir_version, ~11 initializers per model rotating through every onnx_ir.DataType legal for the ir_version "
         "with NaN-payload / -0.0 / subnormal / extreme bit patterns, zero-size and 0-d shapes, raw / typed / external storage; "
